@@ -25,9 +25,9 @@ CHECKS = {
     "C05": ("other", "effect pairing on resolved MIR: write primitives discovered by callee, pointer provenance classification, post-dominating mark_dirty with agreeing extent; derivation offset agreement; forwarder agreement; raw-handle exemption table",
             "For every guest-memory write in every feature configuration (incl. mmap/Xen code no baseline test compiles) a mark on the owning accessor's bitmap post-dominates the write with a covering extent, and every accessor derivation moves pointer and bitmap by the same offset: soundness of tracking for all operations, offsets, lengths and derivation chains by induction. Page arithmetic inside AtomicBitmap is covered by C09/C16 form rules only.",
             "Trusted: libc::read writes at most count bytes; atomics; unsafe-constructor contracts; rustc MIR. Does not decide the page-division identity.", "DESIGN.md §3 C05"),
-    "C07": ("other", "exhaustive panic-edge / silent-wrap census over all MIR bodies with dominating-fact discharge and a reviewed-edge table; loop-shape recognition",
-            "Every Assert terminator, diverging call, may-panic callee, wrapping/saturating call and narrowing cast in every non-derived body of FULL and XEN is either discharged by a dominating branch fact or matches a reviewed, reasoned table row; every loop has a recognised terminating shape. A new or newly unguarded edge is a violation. Stronger than reachability from sampled entry points; weaker than a proof in that table rows are reviewed judgements.",
-            "Trusted: std/libc callees off the may-panic list are total; allocation failure, stack overflow, foreign trait impls out of scope; the reviewed table.", "DESIGN.md §3 C07"),
+    "C07": ("other", "exhaustive panic-edge / silent-wrap census over all MIR bodies; discharge by dominating facts, an interval + ordering-closure domain and failure summaries of the crate's checked helpers, else a reviewed-edge table; loop-shape recognition",
+            "Every Assert terminator, diverging call, may-panic callee, wrapping/saturating call and narrowing cast in every non-derived body of FULL and XEN is either discharged by a dominating branch fact / the interval and ordering closure over such facts / a complete failure summary of the callee, or matches a reviewed, reasoned table row; every loop has a recognised terminating shape. A new or newly unguarded edge is a violation. Stronger than reachability from sampled entry points; weaker than a proof in that table rows are reviewed judgements.",
+            "Trusted: std/libc callees off the may-panic list are total; allocation failure, stack overflow, foreign trait impls out of scope; the reviewed table; the arithmetic axioms of rules/bounds.py (DESIGN.md §2.5b, §6).", "DESIGN.md §3 C07"),
     "C08": ("proof", "site census of all atomic operations on bitmap words + term-level checks (single RMW, single-bit masks, harvest returns the RMW's own result, no load->RMW data dependence)",
             "Given the RMW total order of atomics, the enumerated structural conditions imply that no mark is lost and no unset bit is harvested under every interleaving — a quantifier over schedules that tests cannot cover.",
             "Trusted: C++/Rust atomics semantics; Vec indexing; rustc MIR.", "DESIGN.md §3 C08"),
